@@ -166,8 +166,11 @@ pub fn run(toks: &[&str]) -> String {
         let t0;
         let res = if via_call {
             // (the configuration before or after the resolver: both orders of the builder calls)
-            let transport = if kinds.len() % 2 == 0 { TcpTransport::builder().with_config(config).with_resolver(Fixed(addrs.clone())).build::<TcpStream>() }
-                            else { TcpTransport::builder().with_resolver(Fixed(addrs.clone())).with_config(config).build::<TcpStream>() };
+            // the resolver reports the addresses with a port of its own (0, or some other one): the port is the URI's to say
+            let rport = [0u16, 1, port.wrapping_add(1)][kinds.len() % 3];
+            let answers: Vec<SocketAddr> = addrs.iter().map(|a| SocketAddr::new(a.ip(), rport)).collect();
+            let transport = if kinds.len() % 2 == 0 { TcpTransport::builder().with_config(config).with_resolver(Fixed(answers.clone())).build::<TcpStream>() }
+                            else { TcpTransport::builder().with_resolver(Fixed(answers.clone())).with_config(config).build::<TcpStream>() };
             let parts = http::Request::get(format!("http://tcpc.test:{port}/")).body(()).unwrap().into_parts().0;
             t0 = Instant::now();
             tokio::time::timeout(Duration::from_secs(20), tower::ServiceExt::oneshot(transport, parts)).await
